@@ -1,6 +1,7 @@
 import McpModel.Base.Proto
 import McpModel.Wire.Sse
 import McpModel.Wire.Result
+import McpModel.Wire.Spell
 /-!
 Driver for E2 `Wire` (C19, and the id / batch streams of C02).
 
@@ -11,7 +12,9 @@ monitors on the IMPLEMENTATION's observation.  Monitors are selected by the firs
 argument (`C19` default, `C02`), clause texts carry the property id.
 
 Token forms (blank-separated): JVal `z t f i<int> d<m>e<e> s<hex> a[ … ] o{ <hexkey> v … }`
-(object members sorted by key); Id `- i<n> s<hex>`; Msg `req <id> s<method> <params|->` /
+(object members sorted by key; a string or a member name may instead be `q<hex of the literal's body>`:
+the spelling a foreign peer put on the wire, which the driver turns into the string it denotes with the
+model's `unquote`); Id `- i<n> s<hex>`; Msg `req <id> s<method> <params|->` /
 `resp <id> <result|-> <err|->` with err `e<code> s<msg> <data|->`.
 -/
 namespace Wire
@@ -93,7 +96,9 @@ partial def pJ : P JVal
     else if t == "o{" then
       let rec mems (acc : List (Bytes × JVal)) : P JVal
         | "}" :: r => some (.obj acc.reverse, r)
-        | k :: ts => match hexToBytes k, pJ ts with
+        | k :: ts =>
+          let key : Option Bytes := if k.startsWith "q" then (pHexTok "q" k).bind unquote else hexToBytes k
+          match key, pJ ts with
           | some kb, some (v, r) => mems ((kb, v) :: acc) r
           | _, _ => none
         | [] => none
@@ -106,6 +111,7 @@ partial def pJ : P JVal
         | _, _ => none
       | _ => none
     else if t.startsWith "s" then (pHexTok "s" t).map (fun b => (.str b, rest))
+    else if t.startsWith "q" then ((pHexTok "q" t).bind unquote).map (fun b => (.str b, rest))
     else none
 
 /-- apply `p` until it fails; returns what was parsed and the rest -/
@@ -457,6 +463,15 @@ def monWrite (open_ : List MBatch) (msg : Msg) : List MBatch × SOut × Bool :=
 
 def pfx (d : DState) (s : String) : String := d.pid ++ ": " ++ s
 
+/-- monitor for a user handler that returned `(nil, nil)`: what must not happen (wire-F30) -/
+def nilResultViol (d : DState) (method impl : String) : Option String :=
+  if d.pid != "C19" then none
+  else if impl == "z" then
+    some (pfx d s!"required_members_present: the {method} handler returned (nil, nil) and \"result\":null was sent: no required member at all (wire-F30)")
+  else if impl == "panic" then
+    some (pfx d s!"required_members_present: the {method} handler returned (nil, nil) and the server process panicked (wire-F30)")
+  else some (pfx d s!"required_members_present: the {method} handler returned (nil, nil): no result with its required members was sent")
+
 def lastTok (s : String) : String := ((words s).getLast?).getD ""
 
 /-! ## the engine -/
@@ -567,7 +582,9 @@ def stepWire (d : DState) (toks : List String) (impl : String) : DState × Verdi
         | .error e => showDErr e
       let viol :=
         match idv with
-        | .str _ => if impl == showJ idv then none else some (pfx d "id_echo_exact: string id not echoed exactly")
+        | .str _ => if impl == showJ idv then none
+            else if impl.startsWith "err " then some (pfx d "id_echo_exact: a call whose id is a valid JSON string is rejected by DecodeMessage, so no response bears its id")
+            else some (pfx d "id_echo_exact: string id not echoed exactly")
         | .int n =>
           if inInt64 n then
             if impl == showJ idv then none
@@ -673,10 +690,66 @@ def stepWire (d : DState) (toks : List String) (impl : String) : DState × Verdi
           some (pfx d "content_roundtrip: protocol value changed by marshal→unmarshal→marshal") else none
       (d, { model := showJ j1, violated := viol })
     | _ => bad d
-  | ["r.zero", method, variant] =>
+  | "r.call" :: _ver :: "err" :: [] => (d, { model := "error" })
+  | "r.call" :: _ver :: r =>
+    match (match r with
+      | ["nilres"] => some (ToolRet.nilResult, none, none, false)
+      | "res" :: r => (do
+        let (c, r) ← (match r with
+          | "nil" :: r => some (none, r)
+          | r => (pCList r).map (fun (cs, r) => (some cs, r)) : Option (Option (List Content) × List String))
+        let (sc, r) ← (match r with
+          | "-" :: r => some (none, r)
+          | "any" :: r => (pJ r).map (fun (v, r) => (some v, r))
+          | "raw" :: r => (pJ r).map (fun (v, r) => (some v, r))
+          | _ => none : Option (Option JVal × List String))
+        let ie ← (match r with | ["0"] => some false | ["1"] => some true | _ => none : Option Bool)
+        some (ToolRet.result c sc ie, c, sc, ie))
+      | _ => none : Option (ToolRet × Option (List Content) × Option JVal × Bool)) with
+    | some (ret, c, sc, ie) =>
+      let isNilRes := match ret with | .nilResult => true | _ => false
+      match sdkCallTool ret with
+      | .errorInstead => (d, { model := "error" })
+      | .sent ms =>
+        -- the model prescribes content, structuredContent and isError; _meta / resultType (protocol
+        -- version dependent) are taken from the implementation's result
+        let names := [CallToolResult_Content_name, CallToolResult_StructuredContent_name, CallToolResult_IsError_name]
+        match pJ itoks with
+        | some (.obj kvs, []) =>
+          let model := showJ (.obj (kvs.filter (fun p => !names.contains p.1) ++ ms))
+          let cur := lookup CallToolResult_Content_name kvs
+          let how := (match c with | none => "nil Content" | some [] => "empty Content" | some _ => "Content") ++
+            (if sc.isSome then " and StructuredContent" else "") ++ (if ie then " and IsError" else "")
+          let viol :=
+            if d.pid != "C19" then none
+            else if isNilRes && !isArrJ cur then nilResultViol d "tools/call" impl
+            else if !isArrJ cur then
+              some (pfx d s!"required_members_present: the content member of the tools/call result is null or missing (raw tool handler returned {how})")
+            else if !contentArrOK cur then
+              some (pfx d "required_members_present: a content block of the tools/call result lacks a required member")
+            else if (match cur with | some (.arr l) => !l.all embeddedOK | _ => false) then some (pfx d f23Clause)
+            else if showOJ cur != showOJ (lookup CallToolResult_Content_name ms) then
+              some (pfx d "call_tool_content_present: the content array sent is not the encoding of the handler's blocks")
+            else if showOJ (lookup CallToolResult_StructuredContent_name kvs) != showOJ sc then
+              some (pfx d "call_tool_content_present: structuredContent sent is not the handler's value")
+            else if lookup CallToolResult_IsError_name kvs != (if ie then some (.bool true) else none) then
+              some (pfx d "call_tool_content_present: isError sent is not the handler's flag")
+            else none
+          (d, { model := model, violated := viol })
+        | _ =>
+          let viol := if d.pid != "C19" then none
+            else if isNilRes then nilResultViol d "tools/call" impl
+            else if impl == "panic" then some (pfx d "required_members_present: the server panicked while answering tools/call")
+            else some (pfx d "required_members_present: no tools/call result was sent for a handler result")
+          (d, { model := showJ (.obj ms), violated := viol })
+    | none => bad d
+  | "r.zero" :: method :: variant :: _ver =>
+    -- variant: nil / empty / emptytext = what the handler left in the required list; nilres = the
+    -- handler returned (nil, nil); an optional 4th token names the session's protocol generation
     match rkindOf method with
     | some k =>
-      let l : RList := if variant == "nil" then .nil else .items []
+      let nilres := variant == "nilres"
+      let l : RList := if variant == "nil" then .nil else if nilres then .noResult else .items []
       match sdkResultList k l with
       | .errorInstead => (d, { model := "error" })
       | .sent lv =>
@@ -684,11 +757,13 @@ def stepWire (d : DState) (toks : List String) (impl : String) : DState × Verdi
         match pJ itoks with
         | some (ji, []) =>
           let cur := getPath k.path ji
+          let base := match ji with | .obj _ => ji | _ => .obj []
           let model := match lv, cur with
-            | .arr [], some (.arr l) => showJ (setPath k.path (.arr l) ji)   -- any array will do
-            | lv, _ => showJ (setPath k.path lv ji)
+            | .arr [], some (.arr l) => showJ (setPath k.path (.arr l) base)   -- any array will do
+            | lv, _ => showJ (setPath k.path lv base)
           let viol :=
-            if d.pid == "C19" && !isArrJ cur then
+            if d.pid == "C19" && nilres && !isArrJ cur then nilResultViol d method impl
+            else if d.pid == "C19" && !isArrJ cur then
               some (pfx d s!"required_members_present: required list member of the {method} result is null or missing" ++
                 (if k == .getPrompt || k == .complete then " (F15)" else ""))
             else if d.pid == "C19" && k == .readResource &&
@@ -696,7 +771,10 @@ def stepWire (d : DState) (toks : List String) (impl : String) : DState × Verdi
               some (pfx d f23Clause)
             else none
           (d, { model := model, violated := viol })
-        | _ => (d, { model := "result", violated := some (pfx d "required_members_present: no result") })
+        | _ => (d, { model := "result", violated :=
+            if d.pid != "C19" then none
+            else if nilres then nilResultViol d method impl
+            else some (pfx d "required_members_present: no result") })
     | none => bad d
   ----------------------------------------------------------------- ioConn
   | ["io.new", cap] =>
